@@ -123,6 +123,14 @@ theorem C14_copy_io_hard_structure (fuel : Nat) (w : W) (me other : Nat) (ch vh 
     ValOnly w (copyIo (Cfg.repaired fuel) w me other ch vh).1 :=
   copyIo_failed_valOnly (Cfg.repaired fuel) w me other ch vh hinv rfl herr
 
+/-- (c1') with hard value failures, for a receiving object without value receivers whose current
+values are admissible: all-or-nothing, values included -/
+theorem C14_copy_io_hard_atomic (fuel : Nat) (w : W) (me other : Nat) (ch vh : Bool) (hinv : Inv w.g)
+    (hok : ValuesOk (Cfg.repaired fuel) w me other)
+    (herr : (copyIo (Cfg.repaired fuel) w me other ch vh).2 ≠ .ok) :
+    (copyIo (Cfg.repaired fuel) w me other ch vh).1 = w :=
+  copyIo_atomic_hard (Cfg.repaired fuel) rfl rfl w me other ch vh hinv hok herr
+
 theorem C14_copy_chan_atomic (fuel : Nat) : CopyChanStatement (Cfg.repaired fuel) :=
   fun w a b hinv herr => copyChan_atomic (Cfg.repaired fuel) rfl w a b hinv herr
 
@@ -483,6 +491,19 @@ theorem C14_copy_io_values_witness : ¬ CopyIoHardStatement cur := by
 example : (copyIo cur w6 2 1 true true).2 = .valueCopy ∧ (copyIo rep w6 2 1 true true).2 = .valueCopy ∧
     (copyIo rep w6 2 1 true true).1.val 20 = some 1 ∧ (copyIo rep w6 2 1 true true).1.val 21 = some 2 := by decide
 
+/-- `C14_copy_io_hard_atomic` applies to it -/
+example : ValuesOk rep w6 2 1 := by
+  refine ⟨by decide, ?_, ?_, by decide, by decide, ?_⟩
+  · intro c _; rfl
+  · intro c hc
+    have : c = 20 ∨ c = 21 ∨ c = 22 := by
+      simp only [w6, mkW, exIO, List.mem_cons, List.not_mem_nil, or_false] at hc
+      omega
+    rcases this with rfl | rfl | rfl <;> decide
+  · intro c hc
+    simp only [w6, mkW, exIO, List.mem_cons, List.not_mem_nil, or_false] at hc ⊢
+    omega
+
 /-! ### D8 — flow derivation -/
 
 /-- macro 0 owns a=1, b=2, c=3; data `b.x ← a.o`, `c.x ← a.o` and the cycle `a.y ← c.o`; the
@@ -511,6 +532,7 @@ end PwVerif.C14
 #print axioms PwVerif.C14.C14_wf_replace_atomic
 #print axioms PwVerif.C14.C14_copy_io_atomic
 #print axioms PwVerif.C14.C14_copy_io_hard_structure
+#print axioms PwVerif.C14.C14_copy_io_hard_atomic
 #print axioms PwVerif.C14.C14_copy_chan_atomic
 #print axioms PwVerif.C14.C14_dag_atomic
 #print axioms PwVerif.C14.C14_inherits
